@@ -21,7 +21,7 @@ def compare(src: str, out: str, r: Result, what=("stack",), rgba_tol=1.5 / 255, 
     flattened to lines, everything else kept) converts without any mismatch, the mismatch is attributed to
     skia-pathops' handling of curved input (known finding ENGINE): r.excluded is set and no violation
     is recorded.  Wrapper-logic errors (transforms, rules, clips, cascade) show on the twin as well.
-    For documents with strokes a second stage attributes a mismatch that vanishes in at least 2 of 3
+    A second stage attributes a mismatch that vanishes in at least 2 of 3
     jitter twins (all absolute coordinates moved by <= 0.2 % of the viewBox) to the engine as well."""
     stats = _compare(src, out, r, what, rgba_tol, strokes, gradients, min_trusted, label)
     if attribute and r.violations and all(c in ("stack-differs", "colour-differs") for c, _ in r.violations):
@@ -39,8 +39,12 @@ def compare(src: str, out: str, r: Result, what=("stack",), rgba_tol=1.5 / 255, 
                     r.info = None
         except Exception:
             pass
-    # second stage, stroked documents only: instability under tiny coordinate jitter (see vlib/refsvg/jitter.py)
-    if attribute and strokes and r.violations and "stroke" in src and all(c in ("stack-differs", "colour-differs") for c, _ in r.violations):
+    # second stage: instability under tiny coordinate jitter (see vlib/refsvg/jitter.py).  Engine failures also
+    # occur on purely polygonal input (overlapping dash outlines, degenerate cubics flattened to repeated points);
+    # they depend on the exact coordinates, whereas errors of picosvg's own logic (transform order, rules, clip
+    # and cascade handling, stacking, opacity) are indifferent to moving every coordinate by <= 0.2 % of the viewBox.
+    # What this can hide: an error that needs an exact coordinate coincidence (path-level ones are covered by C09).
+    if attribute and r.violations and all(c in ("stack-differs", "colour-differs") for c, _ in r.violations):
         try:
             from vlib.refsvg import jitter
 
